@@ -13,7 +13,9 @@
     cached blob yields a complete torrent, otherwise a download file is created.
 
   Time is a `Nat` (nanoseconds of the injected clock).  Events are atomic, as they are in the
-  scheduler's event loop.  The per-torrent ghost fields `created`, `serves`, `writes` record when
+  scheduler's event loop.  A torrent becomes complete on the dispatcher's goroutine (`write` of the
+  last piece); its completion event is applied later, as a separate operation (`notice`), so every
+  other event can fall into the window in between.  The per-torrent ghost fields `created`, `serves`, `writes` record when
   things happened; no transition reads them.
 -/
 namespace KrakenModel.TorrentIdle
@@ -63,6 +65,9 @@ inductive Op where
   | tick
   /-- the RemoveTorrent API -/
   | rm (h : Hash)
+  /-- the event loop applies the pending completion notice(s) of torrent `h`
+      (`dispatcherCompleteEvent`): nothing this model tracks changes -/
+  | notice (h : Hash)
   deriving Repr, DecidableEq
 
 inductive Out where
@@ -136,6 +141,7 @@ def step (cfg : Cfg) (s : State) : Op → State × Out
   | .write h i g => let r := writeTor cfg s.now (s.tors h) i g; (upd s h r.1, r.2)
   | .tick => ({ s with tors := fun h => tickTor cfg s.now (s.tors h) }, .none)
   | .rm h => (upd s h (rmTor (s.tors h)), .ok)
+  | .notice _ => (s, .none)
 
 def next (cfg : Cfg) (s : State) (o : Op) : State := (step cfg s o).1
 
